@@ -5,7 +5,9 @@ import common
 import simcheck
 
 META = {
-    "level_text": ("Theorems (Lean 4, for every list of requests): chunks re-assembles to its input and every chunk holds between 1 and n items; "
+    "level_text": ("A forced placement of an order that is in the blotter, or complete, is refused like an unforced one and files nothing "
+                   "(forced_place_of_a_placed_order_refused). "
+                   "Theorems (Lean 4, for every list of requests): chunks re-assembles to its input and every chunk holds between 1 and n items; "
                    "grouping by market version yields one group per version holding exactly the requests of that version in request order; every "
                    "package holds at most the regenerated per-call limit (200/60/60/60), is not empty, and contains only orders requested with its "
                    "market version; for every version the packages of that version, read in sending order, are exactly the requests of that version "
